@@ -568,7 +568,7 @@ func (f *FS) Get(p string) ([]byte, bool) {
 	if !ok {
 		return nil, false
 	}
-	return append([]byte(nil), ino.cur...), true
+	return ino.cur, true // not copied: the caller must not keep it across a scheduling point
 }
 
 // Durable returns the durable content of a file.
@@ -580,7 +580,7 @@ func (f *FS) Durable(p string) ([]byte, bool) {
 	if !ok {
 		return nil, false
 	}
-	return append([]byte(nil), ino.dur...), true
+	return ino.dur, true
 }
 
 // Delete removes a file (external mutation).
